@@ -35,14 +35,16 @@
 (*              should_reverse_contents).                                  *)
 (*                                                                         *)
 (* The transcription of the pinned tree deviates from GNU ld in three      *)
-(* ways (Devs); each deviation is a switch, and the machine computes all   *)
-(* 2^3 variants side by side (variables are indexed by the set of          *)
-(* deviations that are switched ON; Devs = wild as pinned, {} = the rule   *)
-(* wild is meant to implement).  TLC checks                                *)
+(* ways (Devs); each deviation is a switch, and the machine computes the   *)
+(* variants side by side (variables are indexed by the set of deviations   *)
+(* that are switched ON; Devs = wild as pinned, {} = the rule wild is      *)
+(* meant to implement, and every combination of the deviations in whose    *)
+(* class the scenario is - the harness uses those to attribute an observed *)
+(* difference to recorded findings).  TLC checks                           *)
 (*    Conforms:  variant {} emits exactly Order;                           *)
 (*    DevsLocal: a deviation only matters inside its declaratively defined *)
-(*               class of scenarios (InClass), i.e. variant v emits what   *)
-(*               variant v \cap ClassesOf(scn) emits;                      *)
+(*               class of scenarios (InClass): variant Devs emits what     *)
+(*               variant ClassesOf(scn) emits;                             *)
 (* hence outside the three classes wild-as-transcribed = GNU ld.           *)
 (***************************************************************************)
 EXTENDS Integers, Sequences, FiniteSets, SequencesExt, TLC
@@ -50,16 +52,17 @@ EXTENDS Integers, Sequences, FiniteSets, SequencesExt, TLC
 CONSTANTS Scenarios        \* the set of scenarios explored (MCInitOrder defines bounded ones)
 
 VARIABLES scn,             \* the scenario, fixed in Init
+          cls,             \* the deviation classes the scenario is in (set by Load)
+          vs,              \* the variants computed for this scenario (set by Load)
           pc,              \* "load" -> "resolve" -> "emit" -> "done"
           files,           \* files[v]: wild's file order (sequence of object numbers)
           nres,            \* number of files whose sections have been resolved
           prim,            \* prim[v]: sections placed directly in a primary (only .preinit_array)
           secs,            \* secs[v]: the init/fini secondary output sections, in creation order
           ord,             \* ord[v][A]: indexes into secs[v] in output order, per primary A
-          nemit,           \* number of output arrays emitted
           emitted          \* emitted[v][A]: the function ids in output array A
 
-vars == <<scn, pc, files, nres, prim, secs, ord, nemit, emitted>>
+vars == <<scn, cls, vs, pc, files, nres, prim, secs, ord, emitted>>
 
 NoPrio == -1
 MaxU16 == 65535
@@ -79,7 +82,6 @@ Devs == {"maxmerge",   \* explicit priority 65535 (.init_array.65535, .ctors.0, 
                        \* order, GNU ld puts .ctors.N first (it compares names on a priority tie)
          "arorder"}    \* archive members are ordered as in the archive; GNU ld orders them in the
                        \* order in which they are extracted
-Variants == SUBSET Devs
 
 KindOK(k) == /\ k.a \in InArrays
              /\ k.p \in Int /\ (k.p = NoPrio \/ (k.p >= 0 /\ k.p <= MaxU16))
@@ -104,13 +106,13 @@ KindOf(S, sec) == S[sec[1]].entries[sec[2]]
 (* function ids <<o, e>> stored in the section, in the order they lie in the input section *)
 Contents(S, sec) ==
     LET es == S[sec[1]].entries
-    IN  [k \in 1..Cardinality({e \in 1..Len(es) : es[e] = es[sec[2]]}) |->
-            <<sec[1], SetToSortSeq({e \in 1..Len(es) : es[e] = es[sec[2]]}, <)[k]>>]
+        idx == SelectSeq([e \in 1..Len(es) |-> e], LAMBDA e : es[e] = es[sec[2]])
+    IN  [k \in 1..Len(idx) |-> <<sec[1], idx[k]>>]
 (* what lands in .init_array/.fini_array: .ctors*/.dtors* contents are reversed *)
 Placed(S, sec) == IF Legacy(KindOf(S, sec).a) THEN Reverse(Contents(S, sec)) ELSE Contents(S, sec)
 
-SecsOfObjs(S, L) == FlattenSeq([k \in 1..Len(L) |-> [i \in 1..Len(SectionsOf(S, L[k])) |->
-                                                        <<L[k], SectionsOf(S, L[k])[i]>>]])
+SecsOfObj(S, o) == LET ss == SectionsOf(S, o) IN [i \in 1..Len(ss) |-> <<o, ss[i]>>]
+SecsOfObjs(S, L) == FlattenSeq([k \in 1..Len(L) |-> SecsOfObj(S, L[k])])
 
 -----------------------------------------------------------------------------
 (* Archive extraction, GNU ld (elf_link_add_archive_symbols): scan the archive symbol table in
@@ -136,9 +138,12 @@ ExtractSeq(S) == Extract(S, <<>>, RefsOf(S, 0))
 (* the objects of the link in link order: plain objects where they stand, the extracted members
    (sequence ms) where the archive stands *)
 PlaceAt(S, ms) ==
-    FlattenSeq([o \in 1..Len(S) |->
-        IF ~S[o].member THEN <<o>>
-        ELSE IF o = MemberSeq(S)[1] THEN ms ELSE <<>>])
+    LET first == IF \E o \in 1..Len(S) : S[o].member
+                 THEN CHOOSE o \in 1..Len(S) : S[o].member /\ \A k \in 1..(o - 1) : ~S[k].member
+                 ELSE 0
+    IN  FlattenSeq([o \in 1..Len(S) |->
+            IF ~S[o].member THEN <<o>>
+            ELSE IF o = first THEN ms ELSE <<>>])
 
 -----------------------------------------------------------------------------
 (* DECLARATIVE: GNU ld.                                                                        *)
@@ -174,21 +179,21 @@ Order(S) == [A \in OutSet |-> GnuArray(S, A)]
 
 LinkedKinds(S) == UNION {{S[o].entries[e] : e \in 1..Len(S[o].entries)} : o \in ToSet(GnuLinkOrder(S))}
 
-InClass(d, S) ==
-    LET K == LinkedKinds(S)
-    IN  CASE d = "maxmerge" ->
-               \E k1 \in K, k2 \in K : /\ k1.a # "preinit" /\ OutOf(k1.a) = OutOf(k2.a)
-                                       /\ k1.p # NoPrio /\ GnuPrio(k1) = MaxU16
-                                       /\ k2.p = NoPrio
-          [] d = "tieinput" ->
-               \E k1 \in K, k2 \in K : /\ k1.a # "preinit" /\ OutOf(k1.a) = OutOf(k2.a)
-                                       /\ Legacy(k1.a) /\ ~Legacy(k2.a)
-                                       /\ k1.p # NoPrio /\ k2.p # NoPrio
-                                       /\ GnuPrio(k1) = GnuPrio(k2)
-          [] d = "arorder" ->
-               ExtractSeq(S) # SelectSeq(MemberSeq(S), LAMBDA m : m \in ToSet(ExtractSeq(S)))
-          [] OTHER -> FALSE
-ClassesOf(S) == {d \in Devs : InClass(d, S)}
+InClassK(d, S, K) ==
+    CASE d = "maxmerge" ->
+           \E k1 \in K : /\ k1.a # "preinit" /\ k1.p # NoPrio /\ GnuPrio(k1) = MaxU16
+                          /\ \E k2 \in K : OutOf(k1.a) = OutOf(k2.a) /\ k2.p = NoPrio
+      [] d = "tieinput" ->
+           \E k1 \in K : /\ Legacy(k1.a) /\ k1.p # NoPrio
+                          /\ \E k2 \in K : /\ OutOf(k1.a) = OutOf(k2.a) /\ ~Legacy(k2.a)
+                                             /\ k2.p # NoPrio /\ GnuPrio(k1) = GnuPrio(k2)
+      [] d = "arorder" ->
+           ExtractSeq(S) # SelectSeq(MemberSeq(S), LAMBDA m : m \in ToSet(ExtractSeq(S)))
+      [] OTHER -> FALSE
+InClass(d, S) == InClassK(d, S, LinkedKinds(S))
+ClassesOf(S) == LET K == LinkedKinds(S) IN {d \in Devs : InClassK(d, S, K)}
+(* The variants the machine computes for S (Load): the pinned tree (Devs), the intended rule ({}) and
+   every partial combination of the deviations whose class S is in: (SUBSET ClassesOf(S)) \cup {Devs} *)
 
 -----------------------------------------------------------------------------
 (* OPERATIONAL: wild.  Every variable is indexed by the variant v (set of deviations ON).      *)
@@ -248,68 +253,68 @@ ItemsInOrder(S, v, items) ==
          IN  [i \in 1..Len(items) |->
                  IF KindOf(S, items[i]).p = NoPrio THEN items[i] ELSE items[srt[at(i)]]]
 
-Init ==
-    /\ scn \in Scenarios
+InitWith(S) ==
+    /\ scn = S
+    /\ cls = {}
+    /\ vs = {}
     /\ pc = "load"
-    /\ files = [v \in Variants |-> <<>>]
+    /\ files = <<>>
     /\ nres = 0
-    /\ prim = [v \in Variants |-> <<>>]
-    /\ secs = [v \in Variants |-> <<>>]
-    /\ ord = [v \in Variants |-> [A \in {"init", "fini"} |-> <<>>]]
-    /\ nemit = 0
-    /\ emitted = [v \in Variants |-> [A \in OutSet |-> <<>>]]
+    /\ prim = <<>>
+    /\ secs = <<>>
+    /\ ord = <<>>
+    /\ emitted = <<>>
 
+Init == \E S \in Scenarios : InitWith(S)
+
+(* file order; also fixes the variants computed for this scenario *)
 Load ==
     /\ pc = "load"
-    /\ files' = [v \in Variants |-> WildFiles(scn, v)]
+    /\ cls' = ClassesOf(scn)
+    /\ vs' = (SUBSET cls') \cup {Devs}
+    /\ files' = [v \in vs' |-> WildFiles(scn, v)]
+    /\ prim' = [v \in vs' |-> <<>>]
+    /\ secs' = [v \in vs' |-> <<>>]
     /\ pc' = "resolve"
-    /\ UNCHANGED <<scn, nres, prim, secs, ord, nemit, emitted>>
+    /\ UNCHANGED <<scn, nres, ord, emitted>>
 
 (* assign_section_ids: files in file order, the sections of a file in section-index order *)
 ResolveObj ==
     /\ pc = "resolve"
     /\ nres < Len(files[{}])
-    /\ LET new == [v \in Variants |->
-                     LET o == files[v][nres + 1]
-                     IN  ResolveSections(scn, v, [prim |-> prim[v], secs |-> secs[v]],
-                                         [i \in 1..Len(SectionsOf(scn, o)) |-> <<o, SectionsOf(scn, o)[i]>>])]
-       IN  /\ prim' = [v \in Variants |-> new[v].prim]
-           /\ secs' = [v \in Variants |-> new[v].secs]
+    /\ LET new == [v \in vs |->
+                     ResolveSections(scn, v, [prim |-> prim[v], secs |-> secs[v]],
+                                     SecsOfObj(scn, files[v][nres + 1]))]
+       IN  /\ prim' = [v \in vs |-> new[v].prim]
+           /\ secs' = [v \in vs |-> new[v].secs]
     /\ nres' = nres + 1
-    /\ UNCHANGED <<scn, pc, files, ord, nemit, emitted>>
+    /\ UNCHANGED <<scn, cls, vs, pc, files, ord, emitted>>
 
 (* OutputOrderBuilder::add_section: the secondaries of a primary, stably sorted by priority *)
 SortSecondaries ==
     /\ pc = "resolve"
     /\ nres = Len(files[{}])
-    /\ ord' = [v \in Variants |-> [A \in {"init", "fini"} |->
+    /\ ord' = [v \in vs |-> [A \in {"init", "fini"} |->
                   SetToSortSeq({i \in 1..Len(secs[v]) : secs[v][i].primary = A},
                                LAMBDA i, j : \/ secs[v][i].key < secs[v][j].key
                                              \/ secs[v][i].key = secs[v][j].key /\ i < j)]]
     /\ pc' = "emit"
-    /\ UNCHANGED <<scn, files, nres, prim, secs, nemit, emitted>>
+    /\ UNCHANGED <<scn, cls, vs, files, nres, prim, secs, emitted>>
 
-(* writing: the primary's own sections, then its secondaries in order; .ctors*/.dtors* reversed *)
+(* writing: the primary's own sections, then its secondaries in order; .ctors / .dtors reversed *)
 Emit ==
     /\ pc = "emit"
-    /\ nemit < Len(OutArrays)
-    /\ LET A == OutArrays[nemit + 1]
-           out(v) == IF A = "preinit"
-                     THEN FlattenSeq([i \in 1..Len(prim[v]) |-> Placed(scn, prim[v][i])])
-                     ELSE FlattenSeq([n \in 1..Len(ord[v][A]) |->
-                              LET its == ItemsInOrder(scn, v, secs[v][ord[v][A][n]].items)
-                              IN  FlattenSeq([i \in 1..Len(its) |-> Placed(scn, its[i])])])
-       IN  emitted' = [v \in Variants |-> [emitted[v] EXCEPT ![A] = out(v)]]
-    /\ nemit' = nemit + 1
-    /\ UNCHANGED <<scn, pc, files, nres, prim, secs, ord>>
-
-Finish ==
-    /\ pc = "emit"
-    /\ nemit = Len(OutArrays)
+    /\ LET out(v, A) ==
+               IF A = "preinit"
+               THEN FlattenSeq([i \in 1..Len(prim[v]) |-> Placed(scn, prim[v][i])])
+               ELSE FlattenSeq([n \in 1..Len(ord[v][A]) |->
+                        LET its == ItemsInOrder(scn, v, secs[v][ord[v][A][n]].items)
+                        IN  FlattenSeq([i \in 1..Len(its) |-> Placed(scn, its[i])])])
+       IN  emitted' = [v \in vs |-> [A \in OutSet |-> out(v, A)]]
     /\ pc' = "done"
-    /\ UNCHANGED <<scn, files, nres, prim, secs, ord, nemit, emitted>>
+    /\ UNCHANGED <<scn, cls, vs, files, nres, prim, secs, ord>>
 
-Next == Load \/ ResolveObj \/ SortSecondaries \/ Emit \/ Finish
+Next == Load \/ ResolveObj \/ SortSecondaries \/ Emit
 Spec == Init /\ [][Next]_vars
 
 Done == pc = "done"
@@ -318,26 +323,26 @@ Done == pc = "done"
 (* Properties *)
 
 TypeOK ==
-    /\ ScenarioOK(scn)
+    /\ Done => ScenarioOK(scn)
     /\ pc \in {"load", "resolve", "emit", "done"}
     /\ nres \in 0..Len(scn)
-    /\ nemit \in 0..Len(OutArrays)
+    /\ pc # "load" => cls = ClassesOf(scn) /\ vs = (SUBSET cls) \cup {Devs}
 
 (* the rule wild is meant to implement is GNU ld's rule *)
 Conforms == Done => emitted[{}] = Order(scn)
 
 (* a deviation is only visible inside its class *)
-DevsLocal == Done => \A v \in Variants : emitted[v] = emitted[v \cap ClassesOf(scn)]
+DevsLocal == Done => emitted[Devs] = emitted[cls]
 
 (* hence: outside the three classes the pinned tree (variant Devs) emits GNU ld's order *)
-PinnedConformsOutsideClasses == Done /\ ClassesOf(scn) = {} => emitted[Devs] = Order(scn)
+PinnedConformsOutsideClasses == Done /\ cls = {} => emitted[Devs] = Order(scn)
 
 (* Anti-vacuity (must be VIOLATED): the pinned tree does deviate from GNU ld. *)
 PinnedConformsEverywhere == Done => emitted[Devs] = Order(scn)
 
 (* every function of a linked object appears exactly once, unlinked members contribute nothing *)
 Complete ==
-    Done => \A v \in Variants :
+    Done => \A v \in vs :
         LET all == emitted[v]["preinit"] \o emitted[v]["init"] \o emitted[v]["fini"]
         IN  /\ Len(all) = Cardinality(ToSet(all))
             /\ ToSet(all) = UNION {{<<o, e>> : e \in 1..Len(scn[o].entries)} :
